@@ -160,7 +160,7 @@ func (w *verifWorld) restartAndCompare() {
 
 func verifH_C04_restart_after_history() {
 	w := verifStartWorld()
-	switch verifCase("scenario", 0, 4) {
+	switch verifCase("scenario", 0, 6) {
 	case 0: // authorize, report, conflicting authorization (ban with reports on disk)
 		w.authorize(w.eaA)
 		w.report(w.idA, 5, verifPower("p0", w.eaA.Capacity), w.privA)
@@ -197,6 +197,20 @@ func verifH_C04_restart_after_history() {
 		w.authorize(w.eaA)
 		w.report(w.idA, 5, verifPower("p0", w.eaA.Capacity), w.privA)
 		w.authorize(w.eaB)
+	case 5, 6: // two devices with reports on disk, then one of them is banned (either report order)
+		w.authorize(w.eaA)
+		w.authorize(w.eaB)
+		if verifCase("scenario", 0, 6) == 5 {
+			w.report(w.idA, 5, verifPower("p0", w.eaA.Capacity), w.privA)
+			w.report(w.idB, 7, verifPower("p1", w.eaB.Capacity), w.privB)
+		} else {
+			w.report(w.idB, 7, verifPower("p1", w.eaB.Capacity), w.privB)
+			w.report(w.idA, 5, verifPower("p0", w.eaA.Capacity), w.privA)
+		}
+		c := w.eaA
+		c.Expiration = verifU32("otherExpiration")
+		verifAssume(c.Expiration != w.eaA.Expiration)
+		w.authorize(c)
 	}
 	w.restartAndCompare()
 	verifReach("end")
